@@ -228,6 +228,10 @@ func (g *Gen) TxOps(tx string, n int, writable bool) []Op {
 			if g.R.Intn(4) == 0 {
 				ops = append(ops, Op{K: "rmb", Tx: tx, Path: g.parentPath(), Key: g.name()})
 			} else {
+				if writable && g.R.Intn(3) == 0 {
+					// a key with a nil value inside the bucket (or below it) that is about to be deleted
+					ops = append(ops, Op{K: "putnil", Tx: tx, Path: e, Key: g.key()})
+				}
 				ops = append(ops, Op{K: "rmb", Tx: tx, Path: e[:len(e)-1], Key: e[len(e)-1]})
 				if writable {
 					g.dropBucket(e[:len(e)-1], e[len(e)-1])
